@@ -21,7 +21,7 @@ from sim.worlds.chain import RT, DEFAULT, make_function, make_mw_type
 
 PHASES = ('request', 'endpoint', 'render')
 BUILTINS_REQ = ['request', '_application', '_route', '_dispatch_state']
-KINDS = ['function', 'function', 'lambda', 'method', 'callable', 'static', 'classmethod', 'decorated']
+KINDS = ['function', 'function', 'lambda', 'method', 'callable', 'static', 'classmethod', 'decorated', 'varkw', 'varkw']
 WATCH = (os.path.join(runner.REPO, 'clastic') + os.sep, '<sinter', '<sim chain')
 
 
@@ -116,6 +116,8 @@ def gen_config(rng):
             t = rng.choice(['multi', 'multi', 'optint', 'optstr', 'optfloat', 'multiint', 'optmulti'])
         utypes.append([u, t])
     cfgd = {'url': utypes, 'resources': list(res), 'route_resources': list(rres), 'mws': mws, 'ep': ep, 'rn': rn}
+    if not mws and rng.random() < 0.5:
+        cfgd['no_render'] = True       # the barest route there is: an endpoint answering by itself, nothing around it
     # a sibling route BEFORE the main one whose pattern matches the same paths but admits only POST; its URL
     # bindings are named like the main route's route-level resources (legal: those are per route)
     if rng.random() < 0.35:
@@ -153,6 +155,19 @@ def wrap_kind(f_spec, name, default_value):
                 default_value=default_value)
     if kind == 'function':
         return make_function(name, False, bound=False, **args)
+    if kind == 'varkw':
+        # declares some names and, besides, takes **anything: it must still be handed the declared names only
+        sig = list(f_spec['req']) + ['%s=DEFAULT' % p for p in f_spec['opt']]
+        if f_spec['kwreq'] or f_spec['kwopt']:
+            sig.append('*')
+            sig += list(f_spec['kwreq']) + ['%s=DEFAULT' % p for p in f_spec['kwopt']]
+        sig.append('**undeclared')
+        allp = f_spec['req'] + f_spec['opt'] + f_spec['kwreq'] + f_spec['kwopt']
+        src = 'def f(%s):\n    d = {%s}\n    d.update(undeclared)\n    return RT.leaf(%r, d, %r)\n' % (
+            ', '.join(sig), ', '.join('%r: %s' % (p, p) for p in allp), name, default_value)
+        env = {'RT': RT, 'DEFAULT': DEFAULT}
+        exec(compile(src, '<sim chain %s>' % name, 'exec'), env)
+        return env['f']
     if kind == 'lambda':
         sig = list(f_spec['req']) + ['%s=DEFAULT' % p for p in f_spec['opt']]
         if f_spec['kwreq'] or f_spec['kwopt']:
@@ -228,8 +243,8 @@ def build(cfg, tag):
     for m in cfg['mws']:
         cls = make_mw_type('C02%s' % m['name'], True, True, m['funcs'])
         objs[m['level']].append(cls(m['name']))
-    ep = wrap_kind(cfg['ep'], 'EP', 'dict')
-    rn = wrap_kind(cfg['rn'], 'RN', 'resp')
+    ep = wrap_kind(cfg['ep'], 'EP', 'resp' if cfg.get('no_render') else 'dict')
+    rn = None if cfg.get('no_render') else wrap_kind(cfg['rn'], 'RN', 'resp')
     segs = ['x']
     for u, t in cfg['url']:
         segs.append(SEG[t] % u)
@@ -413,7 +428,7 @@ class C02(Check):
     level_note = 'Trusted: the resolver (~40 lines from the property text), generator validity rules V1-V3.'
     required_probes = ('embedded-in-parent-offering-more-names', 'decoy-route-binding-named-like-resource', 'positional-next-multi', 'render-error-injected', 'optional-got-offered-value', 'kwonly-got-offered-value', 'null-route-defaults', 'concurrent-batch',
                        'kind-lambda', 'kind-callable', 'kind-classmethod', 'kind-decorated', 'multi-url-value',
-                       'callers-dict-changed-after-construction', 'behind-prefix-stripping-wrapper', 'url-list-value-mutated-after-request', 'same-url-as-previous-request-while-another-is-served', 'same-application-embedded-in-second-parent', 'name-spelled-like-generated-code-identifier', 'default-for-name-provided-elsewhere', 'optional-url-binding-absent', 'optional-url-binding-zero', 'optional-url-binding-present', 'url-value-zero', 'multi-url-binding-empty')
+                       'bare-route-with-catch-all-endpoint', 'kind-varkw', 'callers-dict-changed-after-construction', 'behind-prefix-stripping-wrapper', 'url-list-value-mutated-after-request', 'same-url-as-previous-request-while-another-is-served', 'same-application-embedded-in-second-parent', 'name-spelled-like-generated-code-identifier', 'default-for-name-provided-elsewhere', 'optional-url-binding-absent', 'optional-url-binding-zero', 'optional-url-binding-present', 'url-value-zero', 'multi-url-binding-empty')
 
     def generate(self, seed, tier):
         S = Streams(seed)
@@ -491,6 +506,8 @@ class C02(Check):
             return res
         for kind in ('ep', 'rn'):
             res.probe('kind-' + cfg[kind]['kind'])
+        if cfg.get('no_render') and cfg['ep']['kind'] == 'varkw':
+            res.probe('bare-route-with-catch-all-endpoint')
         if cfg.get('decoy') and cfg.get('route_resources'):
             res.probe('decoy-route-binding-named-like-resource')
         if cfg.get('parent'):
@@ -685,7 +702,9 @@ class C02(Check):
             chain += [m for m in cfg['mws'] if m['level'] == 'route']
         out = [m['name'] + '.request' for m in chain if 'request' in m['funcs']]
         out += [m['name'] + '.endpoint' for m in chain if 'endpoint' in m['funcs']]
-        if kind == 'route':
+        if kind == 'route' and cfg.get('no_render'):
+            out += ['EP']
+        elif kind == 'route':
             out += ['EP'] + [m['name'] + '.render' for m in chain if 'render' in m['funcs']] + ['RN']
         elif cfg.get('re'):
             out += ['RE']        # the 404 of the catch-all route is rendered by the handler's render_error
